@@ -265,9 +265,10 @@ CLAIMS = {
                  "original name and that equal lineage errors are identified in every process, for every version assignment and "
                  "registration order, exhaustively; each behaviour is replayed on the real registries (installed per process "
                  "through the verif hook) and the recorded family, decoded type, Is results and duplicate rejection are "
-                 "validated; in addition Apalache discharges an inductive invariant of the registry operator (function, "
-                 "idempotent family lookup, both names of every accepted rename share a family) for any number and order "
-                 "of registrations, the operator being proved equal to the explored one by a TLC ASSUME", "DESIGN 8 C17"),
+                 "validated; in addition Apalache (five names) and TLAPS (any set of names, 48 obligations) discharge an "
+                 "inductive invariant of the registry operator (idempotent family lookup, both names of every accepted "
+                 "rename share a family) for any number and order of registrations, the operator being checked equal to "
+                 "the explored one by TLC ASSUMEs", "DESIGN 8 C17"),
     "C19": claim("independent model of hint/detail/link/key/tag aggregation; recorded accessor outputs must equal it",
                  "DESIGN 8 C19"),
 }
